@@ -118,7 +118,11 @@ pub struct Coverage {
 }
 
 pub struct Report {
+    /// the property id verdict lines, known findings and replay files are filed under
     pub property: String,
+    /// when this run is one part of a multi-part check (`VERIF_PART=<name>`), the evidence is
+    /// written to `evidence/parts/<property>.<part>.json` and merged by the driver
+    pub part: Option<String>,
     pub tier: String,
     pub seed: i64,
     pub level: String,
@@ -133,8 +137,14 @@ pub struct Report {
 impl Report {
     pub fn new(args: &Args, level: &str) -> Report {
         crate::panics::install_hook();
+        let part = std::env::var("VERIF_PART").ok().filter(|s| !s.is_empty());
+        let property = std::env::var("VERIF_PROPERTY_AS")
+            .ok()
+            .filter(|s| !s.is_empty())
+            .unwrap_or_else(|| args.property.clone());
         Report {
-            property: args.property.clone(),
+            property,
+            part,
             tier: args.tier().to_string(),
             seed: args.seed,
             level: level.to_string(),
@@ -214,6 +224,7 @@ impl Report {
                 let path = replay_dir.join(format!("{}.json", sanitize(&v.signature)));
                 let body = json!({
                     "property": self.property,
+                    "part": self.part,
                     "signature": v.signature,
                     "detail": v.detail,
                     "hits": v.hits,
@@ -299,9 +310,12 @@ impl Report {
             "wall_s": self.started.elapsed().as_secs_f64(),
             "violations": unknown,
         });
-        let evdir = root.join("evidence");
+        let (evdir, evname) = match &self.part {
+            Some(part) => (root.join("evidence").join("parts"), format!("{}.{}.json", self.property, part)),
+            None => (root.join("evidence"), format!("{}.json", self.property)),
+        };
         let _ = std::fs::create_dir_all(&evdir);
-        let evpath = evdir.join(format!("{}.json", self.property));
+        let evpath = evdir.join(evname);
         if let Err(e) = write_atomic(&evpath, &serde_json::to_string_pretty(&ev).unwrap()) {
             eprintln!("machinery error: cannot write {}: {e}", evpath.display());
             return 2;
